@@ -135,3 +135,542 @@ pub(crate) fn emit(event: impl FnOnce() -> Event) {
 		}
 	});
 }
+
+pub use masked::{CodeMask, Mask, Masked, MaskedClass, MaskedCode, MaskedField, MaskedMethod, MaskedRecordComponent, Offer};
+pub use crate::visitor::field::FieldInterests;
+pub use crate::visitor::record::RecordComponentInterests;
+
+/// Wrappers around the tree-building visitors that report a caller-chosen interest mask and decline
+/// caller-chosen classes, fields, methods, record components and `Code` attributes.
+///
+/// Everything the wrappers accept is forwarded unchanged to the wrapped tree builder, so the resulting
+/// [`ClassFile`](crate::tree::class::ClassFile) holds exactly what the masked visitor received. The field
+/// and record component visitor traits live in crate-private modules, so such visitors cannot be written
+/// outside of this crate.
+mod masked {
+	use std::ops::ControlFlow;
+	use anyhow::Result;
+	use java_string::JavaString;
+	use crate::tree::class::{ClassAccess, ClassFile, ClassName, ClassSignature, EnclosingMethod, InnerClass, ObjClassName};
+	use crate::tree::field::{ConstantValue, Field, FieldAccess, FieldDescriptor, FieldName, FieldSignature};
+	use crate::tree::method::{Method, MethodAccess, MethodDescriptor, MethodName, MethodParameter, MethodSignature};
+	use crate::tree::method::code::{Code, Exception, Instruction, Label, Lv};
+	use crate::tree::module::{Module, PackageName};
+	use crate::tree::record::{RecordComponent, RecordName};
+	use crate::tree::version::Version;
+	use crate::visitor::MultiClassVisitor;
+	use crate::visitor::class::{ClassInterests, ClassVisitor};
+	use crate::visitor::field::{FieldInterests, FieldVisitor};
+	use crate::visitor::method::{MethodInterests, MethodVisitor};
+	use crate::visitor::method::code::{CodeInterests, CodeVisitor, StackMapData};
+	use crate::visitor::record::{RecordComponentInterests, RecordComponentVisitor};
+
+	/// [`CodeInterests`] as plain copyable data.
+	#[derive(Debug, Clone, Copy, Default, PartialEq)]
+	pub struct CodeMask {
+		pub stack_map_table: bool,
+		pub line_number_table: bool,
+		pub local_variable_table: bool,
+		pub local_variable_type_table: bool,
+		pub runtime_visible_type_annotations: bool,
+		pub runtime_invisible_type_annotations: bool,
+		pub unknown_attributes: bool,
+	}
+
+	impl CodeMask {
+		fn interests(self) -> CodeInterests {
+			CodeInterests {
+				stack_map_table: self.stack_map_table,
+				line_number_table: self.line_number_table,
+				local_variable_table: self.local_variable_table,
+				local_variable_type_table: self.local_variable_type_table,
+				runtime_visible_type_annotations: self.runtime_visible_type_annotations,
+				runtime_invisible_type_annotations: self.runtime_invisible_type_annotations,
+				unknown_attributes: self.unknown_attributes,
+			}
+		}
+	}
+
+	/// What a [`Masked`] visitor declares interest in and what it declines.
+	///
+	/// The `decline_*` lists are indexed by the ordinal of the `visit_field` / `visit_method` /
+	/// `visit_record_component` call within one class; a missing entry means "accept".
+	#[derive(Debug, Clone, Default, PartialEq)]
+	pub struct Mask {
+		pub class: ClassInterests,
+		pub field: FieldInterests,
+		pub method: MethodInterests,
+		pub code: CodeMask,
+		pub record_component: RecordComponentInterests,
+		pub decline_class: bool,
+		pub decline_fields: Vec<bool>,
+		pub decline_methods: Vec<bool>,
+		pub decline_record_components: Vec<bool>,
+		/// Answer `None` from `visit_code` of the method with this ordinal.
+		pub decline_code: Vec<bool>,
+	}
+
+	/// One header the visitor was offered, in the order of the calls.
+	#[derive(Debug, Clone, PartialEq)]
+	pub enum Offer {
+		Class { version: Version, access: ClassAccess, name: ObjClassName, super_class: Option<ObjClassName>, interfaces: Vec<ObjClassName>, declined: bool },
+		Field { access: FieldAccess, name: FieldName, descriptor: FieldDescriptor, declined: bool },
+		Method { access: MethodAccess, name: MethodName, descriptor: MethodDescriptor, declined: bool },
+		RecordComponent { name: RecordName, descriptor: FieldDescriptor, declined: bool },
+		/// `visit_code` was called `visits` times on the (accepted) method with ordinal `method`.
+		Code { method: usize, visits: usize, declined: bool },
+	}
+
+	/// A [`MultiClassVisitor`] building [`ClassFile`]s from what passes the [`Mask`].
+	#[derive(Debug, Clone, Default, PartialEq)]
+	pub struct Masked {
+		pub mask: Mask,
+		pub classes: Vec<ClassFile>,
+		pub offers: Vec<Offer>,
+	}
+
+	impl Masked {
+		pub fn new(mask: Mask) -> Masked {
+			Masked { mask, classes: Vec::new(), offers: Vec::new() }
+		}
+	}
+
+	#[derive(Debug)]
+	pub struct State {
+		mask: Mask,
+		offers: Vec<Offer>,
+		fields: usize,
+		methods: usize,
+		record_components: usize,
+	}
+
+	fn declined(list: &[bool], index: usize) -> bool {
+		list.get(index).copied().unwrap_or(false)
+	}
+
+	impl MultiClassVisitor for Masked {
+		type ClassVisitor = MaskedClass;
+		type ClassResidual = <Vec<ClassFile> as MultiClassVisitor>::ClassResidual;
+
+		fn visit_class(mut self, version: Version, access: ClassAccess, name: ObjClassName, super_class: Option<ObjClassName>, interfaces: Vec<ObjClassName>)
+				-> Result<ControlFlow<Self, (Self::ClassResidual, Self::ClassVisitor)>> {
+			let declined = self.mask.decline_class;
+			self.offers.push(Offer::Class { version, access, name: name.clone(), super_class: super_class.clone(), interfaces: interfaces.clone(), declined });
+			if declined {
+				return Ok(ControlFlow::Break(self));
+			}
+			let Masked { mask, classes, offers } = self;
+			let state = State { mask, offers, fields: 0, methods: 0, record_components: 0 };
+			Ok(match classes.visit_class(version, access, name, super_class, interfaces)? {
+				ControlFlow::Continue((residual, inner)) => ControlFlow::Continue((residual, MaskedClass { state, inner })),
+				ControlFlow::Break(classes) => ControlFlow::Break(Masked { mask: state.mask, classes, offers: state.offers }),
+			})
+		}
+
+		fn finish_class(this: Self::ClassResidual, class_visitor: Self::ClassVisitor) -> Result<Self> {
+			let MaskedClass { state, inner } = class_visitor;
+			let classes = <Vec<ClassFile> as MultiClassVisitor>::finish_class(this, inner)?;
+			Ok(Masked { mask: state.mask, classes, offers: state.offers })
+		}
+	}
+
+	#[derive(Debug)]
+	pub struct MaskedClass {
+		state: State,
+		inner: ClassFile,
+	}
+
+	impl ClassVisitor for MaskedClass {
+		type AnnotationsVisitor = <ClassFile as ClassVisitor>::AnnotationsVisitor;
+		type AnnotationsResidual = (State, <ClassFile as ClassVisitor>::AnnotationsResidual);
+		type TypeAnnotationsVisitor = <ClassFile as ClassVisitor>::TypeAnnotationsVisitor;
+		type TypeAnnotationsResidual = (State, <ClassFile as ClassVisitor>::TypeAnnotationsResidual);
+		type RecordComponentVisitor = MaskedRecordComponent;
+		type RecordComponentResidual = (State, <ClassFile as ClassVisitor>::RecordComponentResidual);
+		type FieldVisitor = MaskedField;
+		type FieldResidual = (State, <ClassFile as ClassVisitor>::FieldResidual);
+		type MethodVisitor = MaskedMethod;
+		type MethodResidual = (State, <ClassFile as ClassVisitor>::MethodResidual);
+		type UnknownAttribute = <ClassFile as ClassVisitor>::UnknownAttribute;
+
+		fn interests(&self) -> ClassInterests {
+			self.state.mask.class
+		}
+
+		fn visit_deprecated_and_synthetic_attribute(&mut self, deprecated: bool, synthetic: bool) -> Result<()> {
+			self.inner.visit_deprecated_and_synthetic_attribute(deprecated, synthetic)
+		}
+
+		fn visit_inner_classes(&mut self, inner_classes: Vec<InnerClass>) -> Result<()> {
+			self.inner.visit_inner_classes(inner_classes)
+		}
+		fn visit_enclosing_method(&mut self, enclosing_method: EnclosingMethod) -> Result<()> {
+			self.inner.visit_enclosing_method(enclosing_method)
+		}
+		fn visit_signature(&mut self, signature: ClassSignature) -> Result<()> {
+			self.inner.visit_signature(signature)
+		}
+
+		fn visit_source_file(&mut self, source_file: JavaString) -> Result<()> {
+			self.inner.visit_source_file(source_file)
+		}
+		fn visit_source_debug_extension(&mut self, source_debug_extension: JavaString) -> Result<()> {
+			self.inner.visit_source_debug_extension(source_debug_extension)
+		}
+
+		fn visit_annotations(self, visible: bool) -> Result<(Self::AnnotationsResidual, Self::AnnotationsVisitor)> {
+			let (residual, visitor) = self.inner.visit_annotations(visible)?;
+			Ok(((self.state, residual), visitor))
+		}
+		fn finish_annotations((state, residual): Self::AnnotationsResidual, annotations_visitor: Self::AnnotationsVisitor) -> Result<Self> {
+			Ok(MaskedClass { state, inner: ClassVisitor::finish_annotations(residual, annotations_visitor)? })
+		}
+		fn visit_type_annotations(self, visible: bool) -> Result<(Self::TypeAnnotationsResidual, Self::TypeAnnotationsVisitor)> {
+			let (residual, visitor) = self.inner.visit_type_annotations(visible)?;
+			Ok(((self.state, residual), visitor))
+		}
+		fn finish_type_annotations((state, residual): Self::TypeAnnotationsResidual, type_annotations_visitor: Self::TypeAnnotationsVisitor) -> Result<Self> {
+			Ok(MaskedClass { state, inner: ClassVisitor::finish_type_annotations(residual, type_annotations_visitor)? })
+		}
+
+		fn visit_module(&mut self, module: Module) -> Result<()> {
+			self.inner.visit_module(module)
+		}
+		fn visit_module_packages(&mut self, module_packages: Vec<PackageName>) -> Result<()> {
+			self.inner.visit_module_packages(module_packages)
+		}
+		fn visit_module_main_class(&mut self, module_main_class: ClassName) -> Result<()> {
+			self.inner.visit_module_main_class(module_main_class)
+		}
+
+		fn visit_nest_host_class(&mut self, nest_host_class: ClassName) -> Result<()> {
+			self.inner.visit_nest_host_class(nest_host_class)
+		}
+		fn visit_nest_members(&mut self, nest_members: Vec<ClassName>) -> Result<()> {
+			self.inner.visit_nest_members(nest_members)
+		}
+		fn visit_permitted_subclasses(&mut self, permitted_subclasses: Vec<ClassName>) -> Result<()> {
+			self.inner.visit_permitted_subclasses(permitted_subclasses)
+		}
+
+		fn visit_record_component(mut self, name: RecordName, descriptor: FieldDescriptor)
+				-> Result<ControlFlow<Self, (Self::RecordComponentResidual, Self::RecordComponentVisitor)>> {
+			let index = self.state.record_components;
+			self.state.record_components += 1;
+			let declined = declined(&self.state.mask.decline_record_components, index);
+			self.state.offers.push(Offer::RecordComponent { name: name.clone(), descriptor: descriptor.clone(), declined });
+			if declined {
+				return Ok(ControlFlow::Break(self));
+			}
+			let interests = self.state.mask.record_component;
+			let MaskedClass { state, inner } = self;
+			Ok(match inner.visit_record_component(name, descriptor)? {
+				ControlFlow::Continue((residual, inner)) => ControlFlow::Continue(((state, residual), MaskedRecordComponent { interests, inner })),
+				ControlFlow::Break(inner) => ControlFlow::Break(MaskedClass { state, inner }),
+			})
+		}
+		fn finish_record_component((state, residual): Self::RecordComponentResidual, record_component_visitor: Self::RecordComponentVisitor) -> Result<Self> {
+			Ok(MaskedClass { state, inner: ClassVisitor::finish_record_component(residual, record_component_visitor.inner)? })
+		}
+
+		fn visit_unknown_attribute(&mut self, unknown_attribute: Self::UnknownAttribute) -> Result<()> {
+			self.inner.visit_unknown_attribute(unknown_attribute)
+		}
+
+		fn visit_field(mut self, access: FieldAccess, name: FieldName, descriptor: FieldDescriptor)
+				-> Result<ControlFlow<Self, (Self::FieldResidual, Self::FieldVisitor)>> {
+			let index = self.state.fields;
+			self.state.fields += 1;
+			let declined = declined(&self.state.mask.decline_fields, index);
+			self.state.offers.push(Offer::Field { access, name: name.clone(), descriptor: descriptor.clone(), declined });
+			if declined {
+				return Ok(ControlFlow::Break(self));
+			}
+			let interests = self.state.mask.field;
+			let MaskedClass { state, inner } = self;
+			Ok(match inner.visit_field(access, name, descriptor)? {
+				ControlFlow::Continue((residual, inner)) => ControlFlow::Continue(((state, residual), MaskedField { interests, inner })),
+				ControlFlow::Break(inner) => ControlFlow::Break(MaskedClass { state, inner }),
+			})
+		}
+		fn finish_field((state, residual): Self::FieldResidual, field_visitor: Self::FieldVisitor) -> Result<Self> {
+			Ok(MaskedClass { state, inner: ClassVisitor::finish_field(residual, field_visitor.inner)? })
+		}
+
+		fn visit_method(mut self, access: MethodAccess, name: MethodName, descriptor: MethodDescriptor)
+				-> Result<ControlFlow<Self, (Self::MethodResidual, Self::MethodVisitor)>> {
+			let index = self.state.methods;
+			self.state.methods += 1;
+			let declined = declined(&self.state.mask.decline_methods, index);
+			self.state.offers.push(Offer::Method { access, name: name.clone(), descriptor: descriptor.clone(), declined });
+			if declined {
+				return Ok(ControlFlow::Break(self));
+			}
+			let interests = self.state.mask.method;
+			let code = self.state.mask.code;
+			let decline_code = declined_code(&self.state.mask, index);
+			let MaskedClass { state, inner } = self;
+			Ok(match inner.visit_method(access, name, descriptor)? {
+				ControlFlow::Continue((residual, inner)) => ControlFlow::Continue(((state, residual), MaskedMethod { interests, code, decline_code, index, code_visits: 0, inner })),
+				ControlFlow::Break(inner) => ControlFlow::Break(MaskedClass { state, inner }),
+			})
+		}
+		fn finish_method((mut state, residual): Self::MethodResidual, method_visitor: Self::MethodVisitor) -> Result<Self> {
+			if method_visitor.code_visits > 0 {
+				state.offers.push(Offer::Code { method: method_visitor.index, visits: method_visitor.code_visits, declined: method_visitor.decline_code });
+			}
+			Ok(MaskedClass { state, inner: ClassVisitor::finish_method(residual, method_visitor.inner)? })
+		}
+	}
+
+	fn declined_code(mask: &Mask, index: usize) -> bool {
+		declined(&mask.decline_code, index)
+	}
+
+	#[derive(Debug)]
+	pub struct MaskedField {
+		interests: FieldInterests,
+		inner: Field,
+	}
+
+	impl FieldVisitor for MaskedField {
+		type AnnotationsVisitor = <Field as FieldVisitor>::AnnotationsVisitor;
+		type AnnotationsResidual = (FieldInterests, <Field as FieldVisitor>::AnnotationsResidual);
+		type TypeAnnotationsVisitor = <Field as FieldVisitor>::TypeAnnotationsVisitor;
+		type TypeAnnotationsResidual = (FieldInterests, <Field as FieldVisitor>::TypeAnnotationsResidual);
+		type UnknownAttribute = <Field as FieldVisitor>::UnknownAttribute;
+
+		fn interests(&self) -> FieldInterests {
+			self.interests
+		}
+
+		fn visit_deprecated_and_synthetic_attribute(&mut self, deprecated: bool, synthetic: bool) -> Result<()> {
+			self.inner.visit_deprecated_and_synthetic_attribute(deprecated, synthetic)
+		}
+
+		fn visit_constant_value(&mut self, constant_value: ConstantValue) -> Result<()> {
+			self.inner.visit_constant_value(constant_value)
+		}
+		fn visit_signature(&mut self, signature: FieldSignature) -> Result<()> {
+			self.inner.visit_signature(signature)
+		}
+
+		fn visit_annotations(self, visible: bool) -> Result<(Self::AnnotationsResidual, Self::AnnotationsVisitor)> {
+			let (residual, visitor) = self.inner.visit_annotations(visible)?;
+			Ok(((self.interests, residual), visitor))
+		}
+		fn finish_annotations((interests, residual): Self::AnnotationsResidual, annotations_visitor: Self::AnnotationsVisitor) -> Result<Self> {
+			Ok(MaskedField { interests, inner: FieldVisitor::finish_annotations(residual, annotations_visitor)? })
+		}
+		fn visit_type_annotations(self, visible: bool) -> Result<(Self::TypeAnnotationsResidual, Self::TypeAnnotationsVisitor)> {
+			let (residual, visitor) = self.inner.visit_type_annotations(visible)?;
+			Ok(((self.interests, residual), visitor))
+		}
+		fn finish_type_annotations((interests, residual): Self::TypeAnnotationsResidual, type_annotations_visitor: Self::TypeAnnotationsVisitor) -> Result<Self> {
+			Ok(MaskedField { interests, inner: FieldVisitor::finish_type_annotations(residual, type_annotations_visitor)? })
+		}
+
+		fn visit_unknown_attribute(&mut self, unknown_attribute: Self::UnknownAttribute) -> Result<()> {
+			self.inner.visit_unknown_attribute(unknown_attribute)
+		}
+	}
+
+	#[derive(Debug)]
+	pub struct MaskedRecordComponent {
+		interests: RecordComponentInterests,
+		inner: RecordComponent,
+	}
+
+	impl RecordComponentVisitor for MaskedRecordComponent {
+		type AnnotationsVisitor = <RecordComponent as RecordComponentVisitor>::AnnotationsVisitor;
+		type AnnotationsResidual = (RecordComponentInterests, <RecordComponent as RecordComponentVisitor>::AnnotationsResidual);
+		type TypeAnnotationsVisitor = <RecordComponent as RecordComponentVisitor>::TypeAnnotationsVisitor;
+		type TypeAnnotationsResidual = (RecordComponentInterests, <RecordComponent as RecordComponentVisitor>::TypeAnnotationsResidual);
+		type UnknownAttribute = <RecordComponent as RecordComponentVisitor>::UnknownAttribute;
+
+		fn interests(&self) -> RecordComponentInterests {
+			self.interests
+		}
+
+		fn visit_signature(&mut self, signature: FieldSignature) -> Result<()> {
+			self.inner.visit_signature(signature)
+		}
+
+		fn visit_annotations(self, visible: bool) -> Result<(Self::AnnotationsResidual, Self::AnnotationsVisitor)> {
+			let (residual, visitor) = self.inner.visit_annotations(visible)?;
+			Ok(((self.interests, residual), visitor))
+		}
+		fn finish_annotations((interests, residual): Self::AnnotationsResidual, annotations_visitor: Self::AnnotationsVisitor) -> Result<Self> {
+			Ok(MaskedRecordComponent { interests, inner: RecordComponentVisitor::finish_annotations(residual, annotations_visitor)? })
+		}
+		fn visit_type_annotations(self, visible: bool) -> Result<(Self::TypeAnnotationsResidual, Self::TypeAnnotationsVisitor)> {
+			let (residual, visitor) = self.inner.visit_type_annotations(visible)?;
+			Ok(((self.interests, residual), visitor))
+		}
+		fn finish_type_annotations((interests, residual): Self::TypeAnnotationsResidual, type_annotations_visitor: Self::TypeAnnotationsVisitor) -> Result<Self> {
+			Ok(MaskedRecordComponent { interests, inner: RecordComponentVisitor::finish_type_annotations(residual, type_annotations_visitor)? })
+		}
+
+		fn visit_unknown_attribute(&mut self, unknown_attribute: Self::UnknownAttribute) -> Result<()> {
+			self.inner.visit_unknown_attribute(unknown_attribute)
+		}
+	}
+
+	#[derive(Debug)]
+	pub struct MaskedMethod {
+		interests: MethodInterests,
+		code: CodeMask,
+		decline_code: bool,
+		index: usize,
+		code_visits: usize,
+		inner: Method,
+	}
+
+	/// Everything of a [`MaskedMethod`] but the wrapped tree builder.
+	#[derive(Debug)]
+	pub struct MethodState {
+		interests: MethodInterests,
+		code: CodeMask,
+		decline_code: bool,
+		index: usize,
+		code_visits: usize,
+	}
+
+	impl MaskedMethod {
+		fn split(self) -> (MethodState, Method) {
+			let MaskedMethod { interests, code, decline_code, index, code_visits, inner } = self;
+			(MethodState { interests, code, decline_code, index, code_visits }, inner)
+		}
+		fn join(state: MethodState, inner: Method) -> MaskedMethod {
+			let MethodState { interests, code, decline_code, index, code_visits } = state;
+			MaskedMethod { interests, code, decline_code, index, code_visits, inner }
+		}
+	}
+
+	impl MethodVisitor for MaskedMethod {
+		type AnnotationsVisitor = <Method as MethodVisitor>::AnnotationsVisitor;
+		type AnnotationsResidual = (MethodState, <Method as MethodVisitor>::AnnotationsResidual);
+		type TypeAnnotationsVisitor = <Method as MethodVisitor>::TypeAnnotationsVisitor;
+		type TypeAnnotationsResidual = (MethodState, <Method as MethodVisitor>::TypeAnnotationsResidual);
+		type AnnotationDefaultVisitor = <Method as MethodVisitor>::AnnotationDefaultVisitor;
+		type AnnotationDefaultResidual = (MethodState, <Method as MethodVisitor>::AnnotationDefaultResidual);
+		type CodeVisitor = MaskedCode;
+		type UnknownAttribute = <Method as MethodVisitor>::UnknownAttribute;
+
+		fn interests(&self) -> MethodInterests {
+			self.interests
+		}
+
+		fn visit_deprecated_and_synthetic_attribute(&mut self, deprecated: bool, synthetic: bool) -> Result<()> {
+			self.inner.visit_deprecated_and_synthetic_attribute(deprecated, synthetic)
+		}
+
+		fn visit_exceptions(&mut self, exceptions: Vec<ClassName>) -> Result<()> {
+			self.inner.visit_exceptions(exceptions)
+		}
+		fn visit_signature(&mut self, signature: MethodSignature) -> Result<()> {
+			self.inner.visit_signature(signature)
+		}
+
+		fn visit_annotations(self, visible: bool) -> Result<(Self::AnnotationsResidual, Self::AnnotationsVisitor)> {
+			let (state, inner) = self.split();
+			let (residual, visitor) = inner.visit_annotations(visible)?;
+			Ok(((state, residual), visitor))
+		}
+		fn finish_annotations((state, residual): Self::AnnotationsResidual, annotations_visitor: Self::AnnotationsVisitor) -> Result<Self> {
+			Ok(MaskedMethod::join(state, MethodVisitor::finish_annotations(residual, annotations_visitor)?))
+		}
+		fn visit_type_annotations(self, visible: bool) -> Result<(Self::TypeAnnotationsResidual, Self::TypeAnnotationsVisitor)> {
+			let (state, inner) = self.split();
+			let (residual, visitor) = inner.visit_type_annotations(visible)?;
+			Ok(((state, residual), visitor))
+		}
+		fn finish_type_annotations((state, residual): Self::TypeAnnotationsResidual, type_annotations_visitor: Self::TypeAnnotationsVisitor) -> Result<Self> {
+			Ok(MaskedMethod::join(state, MethodVisitor::finish_type_annotations(residual, type_annotations_visitor)?))
+		}
+
+		fn visit_annotation_default(self) -> Result<(Self::AnnotationDefaultResidual, Self::AnnotationDefaultVisitor)> {
+			let (state, inner) = self.split();
+			let (residual, visitor) = inner.visit_annotation_default()?;
+			Ok(((state, residual), visitor))
+		}
+		fn finish_annotation_default((state, residual): Self::AnnotationDefaultResidual, element_value_visitor: Self::AnnotationDefaultVisitor) -> Result<Self> {
+			Ok(MaskedMethod::join(state, MethodVisitor::finish_annotation_default(residual, element_value_visitor)?))
+		}
+
+		fn visit_parameters(&mut self, method_parameters: Vec<MethodParameter>) -> Result<()> {
+			self.inner.visit_parameters(method_parameters)
+		}
+		fn visit_annotable_parameter_count(&mut self) {
+			self.inner.visit_annotable_parameter_count()
+		}
+		fn visit_parameter_annotation(&mut self) {
+			self.inner.visit_parameter_annotation()
+		}
+
+		fn visit_unknown_attribute(&mut self, unknown_attribute: Self::UnknownAttribute) -> Result<()> {
+			self.inner.visit_unknown_attribute(unknown_attribute)
+		}
+
+		fn visit_code(&mut self) -> Result<Option<Self::CodeVisitor>> {
+			self.code_visits += 1;
+			if self.decline_code {
+				return Ok(None);
+			}
+			let mask = self.code;
+			Ok(self.inner.visit_code()?.map(|inner| MaskedCode { mask, inner }))
+		}
+		fn finish_code(&mut self, code_visitor: Self::CodeVisitor) -> Result<()> {
+			self.inner.finish_code(code_visitor.inner)
+		}
+	}
+
+	#[derive(Debug)]
+	pub struct MaskedCode {
+		mask: CodeMask,
+		inner: Code,
+	}
+
+	impl CodeVisitor for MaskedCode {
+		type TypeAnnotationsVisitor = <Code as CodeVisitor>::TypeAnnotationsVisitor;
+		type TypeAnnotationsResidual = (CodeMask, <Code as CodeVisitor>::TypeAnnotationsResidual);
+		type UnknownAttribute = <Code as CodeVisitor>::UnknownAttribute;
+
+		fn interests(&self) -> CodeInterests {
+			self.mask.interests()
+		}
+
+		fn visit_max_stack_and_max_locals(&mut self, max_stack: u16, max_locals: u16) -> Result<()> {
+			self.inner.visit_max_stack_and_max_locals(max_stack, max_locals)
+		}
+
+		fn visit_exception_table(&mut self, exception_table: Vec<Exception>) -> Result<()> {
+			self.inner.visit_exception_table(exception_table)
+		}
+		fn visit_instruction(&mut self, label: Option<Label>, frame: Option<StackMapData>, instruction: Instruction) -> Result<()> {
+			self.inner.visit_instruction(label, frame, instruction)
+		}
+		fn visit_last_label(&mut self, last_label: Label) -> Result<()> {
+			self.inner.visit_last_label(last_label)
+		}
+
+		fn visit_line_numbers(&mut self, line_number_table: Vec<(Label, u16)>) -> Result<()> {
+			self.inner.visit_line_numbers(line_number_table)
+		}
+		fn visit_local_variables(&mut self, local_variables: Vec<Lv>) -> Result<()> {
+			self.inner.visit_local_variables(local_variables)
+		}
+
+		fn visit_type_annotations(self, visible: bool) -> Result<(Self::TypeAnnotationsResidual, Self::TypeAnnotationsVisitor)> {
+			let (residual, visitor) = self.inner.visit_type_annotations(visible)?;
+			Ok(((self.mask, residual), visitor))
+		}
+		fn finish_type_annotations((mask, residual): Self::TypeAnnotationsResidual, type_annotations_visitor: Self::TypeAnnotationsVisitor) -> Result<Self> {
+			Ok(MaskedCode { mask, inner: CodeVisitor::finish_type_annotations(residual, type_annotations_visitor)? })
+		}
+
+		fn visit_unknown_attribute(&mut self, unknown_attribute: Self::UnknownAttribute) -> Result<()> {
+			self.inner.visit_unknown_attribute(unknown_attribute)
+		}
+	}
+}
